@@ -4,6 +4,7 @@ import (
 	"bytes"
 	"errors"
 	"fmt"
+	"os"
 	"sync/atomic"
 	"time"
 
@@ -21,9 +22,21 @@ type DiffCfg struct {
 	Cache  int
 	Fast   int // 0 off, 1 on, 2 toggled at every reopen (starting on)
 	Prune  int // 0 never, 1 every version (keep only the latest), 2 keep the two latest
+	Start  int // how the start state (a committed version) is taken over before the history continues, see startNames
 }
 
+// Start modes. 0: the handle that wrote the start state / a plain Load of the start snapshot.
+//  1. the start state was committed with the fast index OFF; the DB is reopened with the index ON through
+//     LoadVersion(latest) (cache 10000) resp. LoadReadonly (cache 0) — neither verifies nor rebuilds the index, which is
+//     then readable but incomplete — and so is every later reopen of the run.
+//  2. the latest version of the start state is exported and imported into an EMPTY DB, and the history continues on the
+//     importing handle itself, without reopening (Import drops the index and suppresses its stamp until the next Load).
+var startNames = []string{"same-handle", "index-enabled+LoadVersion", "import-then-continue"}
+
 func (c DiffCfg) String() string {
+	if c.Start != 0 && c.Prune == 0 {
+		return fmt.Sprintf("start=%s reopen=%b cache=%d fast=%s", startNames[c.Start], c.Reopen, c.Cache, []string{"off", "on", "toggle"}[c.Fast])
+	}
 	return fmt.Sprintf("reopen=%b cache=%d fast=%s prune=%s", c.Reopen, c.Cache, []string{"off", "on", "toggle"}[c.Fast], []string{"never", "every-version", "keep-2"}[c.Prune])
 }
 
@@ -42,7 +55,7 @@ func diffConfigs(saves int, thorough bool) []DiffCfg {
 			for _, c := range []int{0, 1, 2, 10000} {
 				for f := 0; f < 3; f++ {
 					for p := 0; p < 3; p++ {
-						out = append(out, DiffCfg{r, c, f, p})
+						out = append(out, DiffCfg{r, c, f, p, 0})
 					}
 				}
 			}
@@ -53,13 +66,41 @@ func diffConfigs(saves int, thorough bool) []DiffCfg {
 		for _, c := range []int{0, 10000} {
 			for f := 0; f < 2; f++ {
 				for p := 0; p < 2; p++ {
-					out = append(out, DiffCfg{r, c, f, p})
+					out = append(out, DiffCfg{r, c, f, p, 0})
 				}
 			}
 		}
 	}
 	for _, r := range []uint32{0, nsub - 1} {
-		out = append(out, DiffCfg{r, 1, 0, 2}, DiffCfg{r, 2, 2, 0}, DiffCfg{r, 1, 2, 1}, DiffCfg{r, 2, 1, 2}, DiffCfg{r, 10000, 2, 2})
+		out = append(out, DiffCfg{r, 1, 0, 2, 0}, DiffCfg{r, 2, 2, 0, 0}, DiffCfg{r, 1, 2, 1, 0}, DiffCfg{r, 2, 1, 2, 0}, DiffCfg{r, 10000, 2, 2, 0})
+	}
+	return out
+}
+
+// startConfigs enumerates the configurations that take the start state over in another way (Start 1, 2) for a history
+// with `saves` version boundaries: reopen none/all (thorough: every subset) x cache {0,10000} x — for the import —
+// fast index off/on. The index is never toggled here: an index that was maintained, switched off and on again is
+// stale, and only Load (not LoadVersion) is specified to notice.
+func startConfigs(saves int, thorough bool) []DiffCfg {
+	if saves > 5 {
+		saves = 5
+	}
+	nsub := uint32(1) << uint(saves)
+	rs := []uint32{0, nsub - 1}
+	if thorough {
+		rs = rs[:0]
+		for r := uint32(0); r < nsub; r++ {
+			rs = append(rs, r)
+		}
+	}
+	var out []DiffCfg
+	for i, r := range rs {
+		if i > 0 && r == rs[i-1] {
+			continue
+		}
+		for _, c := range []int{0, 10000} {
+			out = append(out, DiffCfg{r, c, 1, 0, 1}, DiffCfg{r, c, 0, 0, 2}, DiffCfg{r, c, 1, 0, 2})
+		}
 	}
 	return out
 }
@@ -69,13 +110,106 @@ type hashTrace struct {
 	vers  map[int64]string // root hash of every version ever saved (as returned by SaveVersion)
 }
 
+// importLatest exports version v of src (public Export path unless own) and imports it into an empty DB opened with cfg.
+func importLatest(u *Universe, src *Sys, v int64, cfg Cfg, own bool) (dst *Sys, nodes int, problem string) {
+	imm, err := src.T.GetImmutable(v)
+	if err != nil {
+		return nil, 0, fmt.Sprintf("export: GetImmutable(%d): %v", v, err)
+	}
+	defer imm.Close()
+	var exp *bptree.Exporter
+	if own {
+		exp, err = bptree.VerifExport(imm)
+	} else {
+		exp, err = imm.Export(nil)
+	}
+	if err != nil {
+		return nil, 0, fmt.Sprintf("Export(v%d): %v", v, err)
+	}
+	var ns []*bptree.ExportNode
+	for {
+		n, err := exp.Next()
+		if errors.Is(err, bptree.ErrExportDone) {
+			break
+		}
+		if err != nil {
+			exp.Close()
+			return nil, 0, fmt.Sprintf("Exporter.Next: %v", err)
+		}
+		ns = append(ns, n)
+	}
+	exp.Close()
+	dst = NewSys(u, cfg)
+	imp, err := dst.T.Import(v)
+	if err != nil {
+		return nil, 0, fmt.Sprintf("Import(%d) into an empty DB: %v", v, err)
+	}
+	for i, n := range ns {
+		if err := imp.Add(n); err != nil {
+			return nil, 0, fmt.Sprintf("Importer.Add(node %d of %d): %v", i, len(ns), err)
+		}
+	}
+	if err := imp.Commit(); err != nil {
+		return nil, 0, fmt.Sprintf("Importer.Commit: %v", err)
+	}
+	imp.Close()
+	return dst, len(ns), ""
+}
+
 // runHistory executes a logical history (Set/Remove/Save/Rollback) under cfg and returns its hash trace,
-// the final system and the final model. start is nil (empty DB) or a DB snapshot to clone and Load.
-func runHistory(u *Universe, start *memdb.MemDB, startModel *Model, ops []Op, cfg DiffCfg) (tr hashTrace, s *Sys, m *Model, problem string) {
+// the final system and the final model. start is nil (empty DB; the first `pre` ops are the prefill building the start
+// state) or a DB snapshot to clone and Load. The start state is taken over as cfg.Start says (only if it is a committed,
+// non-empty version).
+func runHistory(u *Universe, start *memdb.MemDB, startModel *Model, ops []Op, pre int, cfg DiffCfg) (tr hashTrace, s *Sys, m *Model, problem string) {
 	fastOn := cfg.Fast != 0
+	loadMode := 0
+	if cfg.Start == 1 {
+		loadMode = 1
+		if cfg.Cache == 0 {
+			loadMode = 2
+		}
+	}
+	// takeOver applies the start mode once the start state exists.
+	takeOver := func() string {
+		if cfg.Start == 0 || m.Latest == 0 || m.Dirty || m.Poisoned || m.Ver != m.Latest {
+			return ""
+		}
+		switch cfg.Start {
+		case 1:
+			s.Cfg.Fast, s.LoadMode, s.LoadHint = true, loadMode, m.Latest
+			res, p := s.Apply(Op{K: OpReload})
+			if p != nil {
+				return fmt.Sprintf("reopen of the start state with the fast index enabled: panic: %v", p)
+			}
+			if d := m.Step(Op{K: OpReload}, res); d != "" {
+				return "reopen of the start state with the fast index enabled: " + d
+			}
+		case 2:
+			v := m.Latest
+			if m.Vers[v].Size() == 0 {
+				return ""
+			}
+			dst, _, prob := importLatest(u, s, v, Cfg{Cache: cfg.Cache, Fast: fastOn}, cfg.Cache == 0)
+			if prob != "" {
+				return "taking the start state over by import: " + prob
+			}
+			s.T.Close()
+			nm := NewModel(u)
+			nm.Vers[v], nm.Hashes[v] = m.Vers[v], m.Hashes[v]
+			nm.First, nm.Latest, nm.Ver, nm.Work = v, v, v, m.Vers[v].Clone()
+			if !bytes.Equal(dst.T.Hash(), []byte(m.Hashes[v])) {
+				return fmt.Sprintf("imported version %d has a different root hash than the exported one", v)
+			}
+			s, m = dst, nm
+		}
+		return ""
+	}
 	if start != nil {
-		s = NewSysOn(u, Cfg{Cache: cfg.Cache, Fast: fastOn}, CloneDB(start))
+		s = NewSysOn(u, Cfg{Cache: cfg.Cache, Fast: fastOn}, CloneDB(start)) // (snapshots are built with the index off)
 		m = startModel.Clone()
+		if cfg.Start == 1 {
+			s.LoadMode, s.LoadHint = loadMode, m.Latest
+		}
 		res, p := s.Apply(Op{K: OpReload})
 		if p != nil {
 			return tr, s, m, fmt.Sprintf("panic while loading the start snapshot: %v", p)
@@ -83,13 +217,23 @@ func runHistory(u *Universe, start *memdb.MemDB, startModel *Model, ops []Op, cf
 		if d := m.Step(Op{K: OpReload}, res); d != "" {
 			return tr, s, m, "loading the start snapshot: " + d
 		}
+		if cfg.Start == 2 {
+			if d := takeOver(); d != "" {
+				return tr, s, m, d
+			}
+		}
 	} else {
-		s = NewSys(u, Cfg{Cache: cfg.Cache, Fast: fastOn})
+		s = NewSys(u, Cfg{Cache: cfg.Cache, Fast: fastOn && cfg.Start != 1})
 		m = NewModel(u)
 	}
 	tr.vers = map[int64]string{}
 	boundary := 0
 	for i, op := range ops {
+		if start == nil && i == pre && pre > 0 {
+			if d := takeOver(); d != "" {
+				return tr, s, m, d
+			}
+		}
 		res, p := s.Apply(op)
 		if p != nil {
 			return tr, s, m, fmt.Sprintf("op %d %s: panic: %v", i, op.Str(u), p)
@@ -128,6 +272,7 @@ func runHistory(u *Universe, start *memdb.MemDB, startModel *Model, ops []Op, cf
 				if cfg.Fast == 2 {
 					s.Cfg.Fast = !s.Cfg.Fast
 				}
+				s.LoadHint = m.Latest
 				rr, rp := s.Apply(Op{K: OpReload})
 				if rp != nil {
 					return tr, s, m, fmt.Sprintf("reopen after version %d: panic: %v", res.Ver, rp)
@@ -155,69 +300,175 @@ func countSaves(ops []Op) int {
 
 // C24Stats are shared counters of the differential.
 type C24Stats struct {
-	Histories, ConfigRuns, Imports, HashCompares atomic.Int64
+	Histories, ConfigRuns, Imports, HashCompares, StartRuns atomic.Int64
+}
+
+
+// differentiate runs one history under the reference configuration and under every configuration of cfgs; hash
+// trace, version hashes, final contents (through every read API) must agree.
+func differentiate(sink Sink, st *C24Stats, sc *Scenario, path []Op, cfgs func(saves int) []DiffCfg) string {
+	var ops []Op
+	var start *memdb.MemDB
+	var startModel *Model
+	if sc.Snapshot {
+		start, startModel = sc.baseDB, sc.baseModel
+		ops = path
+	} else {
+		ops = append(append([]Op(nil), sc.Prefill...), path...)
+	}
+	st.Histories.Add(1)
+	pre := len(ops) - len(path)
+	ref, _, rm, prob := runHistory(sc.U, start, startModel, ops, pre, DiffCfg{0, 10000, 0, 0, 0})
+	if prob != "" {
+		return "reference run: " + prob
+	}
+	for _, cfg := range cfgs(countSaves(ops)) {
+		st.ConfigRuns.Add(1)
+		sink.Eval()
+		tr, cs, cm, prob := runHistory(sc.U, start, startModel, ops, pre, cfg)
+		if prob != "" {
+			return fmt.Sprintf("[%s] %s", cfg, prob)
+		}
+		for i := range ref.steps {
+			st.HashCompares.Add(2)
+			if tr.steps[i][0] != ref.steps[i][0] {
+				return fmt.Sprintf("[%s] WorkingHash() after op %d (%s) differs from the reference configuration", cfg, i, ops[i].Str(sc.U))
+			}
+			if tr.steps[i][1] != ref.steps[i][1] {
+				return fmt.Sprintf("[%s] Hash() after op %d (%s) differs from the reference configuration", cfg, i, ops[i].Str(sc.U))
+			}
+		}
+		for v, h := range ref.vers {
+			st.HashCompares.Add(1)
+			if tr.vers[v] != h {
+				return fmt.Sprintf("[%s] SaveVersion hash of version %d differs from the reference configuration", cfg, v)
+			}
+		}
+		// contents and retained version hashes in this configuration (Get goes through the fast index when enabled)
+		if !cm.Work.Equal(rm.Work) {
+			return fmt.Sprintf("[%s] HARNESS: model diverged", cfg)
+		}
+		if d := Observe(cs, cm, sc.Probe, true); d != "" {
+			return fmt.Sprintf("[%s] %s", cfg, d)
+		}
+		if cfg.Fast != 0 {
+			sink.Outcome("cfg_fast_index")
+		}
+		if cfg.Prune != 0 {
+			sink.Outcome("cfg_pruned")
+		}
+		if cfg.Reopen != 0 {
+			sink.Outcome("cfg_reopened")
+		}
+		if cfg.Start != 0 {
+			st.StartRuns.Add(1)
+			sink.Outcome("cfg_start:" + startNames[cfg.Start])
+		}
+	}
+	return ""
+}
+
+// takeOverEnum (scenarios with TakeOver set, run once from the start state): EVERY sequence of the menu below — not
+// only those reaching new states: a Remove of an absent key or a Set of an unchanged key is a no-op for the BFS, but
+// it is exactly what has to behave the same on a handle whose fast index is readable but incomplete — is run under
+// the reference configuration and under every start-mode configuration (startConfigs).
+//
+//	wide   (scale A): [x], [x y], [x SaveVersion y]  for all x, y in {Set(k), Remove(k) : k in the alphabet} (+ [x SaveVersion])
+//	narrow (scale B): [x] for all x; [x SaveVersion y] for x, y in one representative of each class
+//	                  {Remove present, Remove absent, Set present, Set absent}
+func takeOverEnum(sink Sink, st *C24Stats, sc *Scenario, thorough bool) string {
+	base := sc.baseContent()
+	if base == nil {
+		return "HARNESS: no start content for the take-over enumeration"
+	}
+	var alpha []Op
+	for _, k := range sc.Keys {
+		alpha = append(alpha, Op{OpSet, int16(k)})
+	}
+	for _, k := range sc.Keys {
+		alpha = append(alpha, Op{OpRemove, int16(k)})
+	}
+	class := func(o Op) string {
+		return fmt.Sprintf("%s_of_%s_key", map[OpKind]string{OpSet: "Set", OpRemove: "Remove"}[o.K], map[bool]string{true: "present", false: "absent"}[base[o.A] != 0])
+	}
+	var hs [][]Op
+	for _, x := range alpha {
+		hs = append(hs, []Op{x}, []Op{x, {K: OpSave}})
+	}
+	second := alpha
+	if Params().B != 4 && !thorough { // narrow
+		seen := map[string]bool{}
+		second = nil
+		for _, x := range alpha {
+			if c := class(x); !seen[c] {
+				seen[c] = true
+				second = append(second, x)
+			}
+		}
+	} else {
+		for _, x := range alpha {
+			for _, y := range alpha {
+				hs = append(hs, []Op{x, y})
+			}
+		}
+	}
+	for _, x := range second {
+		for _, y := range second {
+			hs = append(hs, []Op{x, {K: OpSave}, y})
+		}
+	}
+	probs := make([]string, len(hs))
+	sink.ParFor(len(hs), func(i int) {
+		if sink.Expired() {
+			return
+		}
+		h := hs[i]
+		if d := differentiate(sink, st, sc, h, func(saves int) []DiffCfg { return startConfigs(saves, thorough) }); d != "" {
+			probs[i] = fmt.Sprintf("continued with %s => %s", PathStr(sc.U, h), d)
+			return
+		}
+		sink.Outcome("after_takeover:" + class(h[0]))
+		if len(h) == 3 {
+			sink.Outcome("after_takeover_and_SaveVersion:" + class(h[2]))
+		}
+	})
+	for _, d := range probs {
+		if d != "" {
+			return d
+		}
+	}
+	return ""
+}
+
+// baseContent is the content of the start state (nil if the prefill does not end in a committed version).
+func (sc *Scenario) baseContent() Content {
+	if sc.Snapshot {
+		if sc.baseModel == nil || sc.baseModel.Latest == 0 {
+			return nil
+		}
+		return sc.baseModel.Vers[sc.baseModel.Latest]
+	}
+	s, m := NewSys(sc.U, sc.Cfg), NewModel(sc.U)
+	if _, d := Run(s, m, sc.Prefill); d != "" || m.Latest == 0 || m.Dirty {
+		return nil
+	}
+	return m.Vers[m.Latest]
 }
 
 // C24Hook returns the per-new-state hook: differential over configurations + export/import of a new version.
 func C24Hook(sink Sink, st *C24Stats, thorough bool) Hook {
 	return func(sc *Scenario, s *Sys, m *Model, work *bptree.VerifNode, path []Op) string {
-		if len(path) == 0 || m.Poisoned {
+		if m.Poisoned {
 			return ""
 		}
-		var ops []Op
-		var start *memdb.MemDB
-		var startModel *Model
-		if sc.Snapshot {
-			start, startModel = sc.baseDB, sc.baseModel
-			ops = path
-		} else {
-			ops = append(append([]Op(nil), sc.Prefill...), path...)
+		if len(path) == 0 {
+			if sc.TakeOver && sc.baseLatest > 0 {
+				return takeOverEnum(sink, st, sc, thorough)
+			}
+			return ""
 		}
-		st.Histories.Add(1)
-		ref, rs, rm, prob := runHistory(sc.U, start, startModel, ops, DiffCfg{0, 10000, 0, 0})
-		if prob != "" {
-			return "reference run: " + prob
-		}
-		_ = rs
-		saves := countSaves(ops)
-		for _, cfg := range diffConfigs(saves, thorough) {
-			st.ConfigRuns.Add(1)
-			sink.Eval()
-			tr, cs, cm, prob := runHistory(sc.U, start, startModel, ops, cfg)
-			if prob != "" {
-				return fmt.Sprintf("[%s] %s", cfg, prob)
-			}
-			for i := range ref.steps {
-				st.HashCompares.Add(2)
-				if tr.steps[i][0] != ref.steps[i][0] {
-					return fmt.Sprintf("[%s] WorkingHash() after op %d (%s) differs from the reference configuration", cfg, i, ops[i].Str(sc.U))
-				}
-				if tr.steps[i][1] != ref.steps[i][1] {
-					return fmt.Sprintf("[%s] Hash() after op %d (%s) differs from the reference configuration", cfg, i, ops[i].Str(sc.U))
-				}
-			}
-			for v, h := range ref.vers {
-				st.HashCompares.Add(1)
-				if tr.vers[v] != h {
-					return fmt.Sprintf("[%s] SaveVersion hash of version %d differs from the reference configuration", cfg, v)
-				}
-			}
-			// contents and retained version hashes in this configuration (Get goes through the fast index when enabled)
-			if !cm.Work.Equal(rm.Work) {
-				return fmt.Sprintf("[%s] HARNESS: model diverged", cfg)
-			}
-			if d := Observe(cs, cm, sc.Probe, true); d != "" {
-				return fmt.Sprintf("[%s] %s", cfg, d)
-			}
-			if cfg.Fast != 0 {
-				sink.Outcome("cfg_fast_index")
-			}
-			if cfg.Prune != 0 {
-				sink.Outcome("cfg_pruned")
-			}
-			if cfg.Reopen != 0 {
-				sink.Outcome("cfg_reopened")
-			}
+		if d := differentiate(sink, st, sc, path, func(saves int) []DiffCfg { return diffConfigs(saves, thorough) }); d != "" {
+			return d
 		}
 		// export -> import of the version just created
 		if path[len(path)-1].K == OpSave && m.Latest > 0 && !m.Dirty {
@@ -351,7 +602,24 @@ func ScenariosC24A(thorough bool) []*Scenario {
 		}
 		out = append(out, &Scenario{
 			Name: "A/" + p.name, U: u, Cfg: Cfg{Cache: 10000}, Prefill: u.Ops(p.script...), Snapshot: pi >= 3,
-			Keys: keys, Rollback: true, MaxSaves: 3, Depth: depth, Bounds: []int{-1}, Probe: &Probe{Keys: boundsOf(keys, u)[1:]},
+			Keys: keys, Rollback: true, MaxSaves: 3, Depth: depth, Bounds: []int{-1}, Probe: &Probe{Keys: boundsOf(keys, u)[1:]}, Events: true, TakeOver: true,
+		})
+	}
+	// start states ONE removal away from every rebalancing step at inner level (scen.go prefillsA, shared with C23):
+	// borrow from the left / right inner sibling, inner merge + root collapse, three inner nodes, four levels.
+	u23 := UniverseA23()
+	for _, p := range prefillsA {
+		d, ok := map[string]int{"inner-borrow-from-left": 2, "inner-borrow-from-right": 2, "inner-merge-root-collapse": 2, "three-inner-nodes": 2, "four-level-min-occupancy": 2}[p.name]
+		if !ok {
+			continue
+		}
+		if thorough {
+			d++
+		}
+		keys := u23.idxs(p.keys...)
+		out = append(out, &Scenario{
+			Name: "A/" + p.name, U: u23, Cfg: Cfg{Cache: 10000}, Prefill: u23.Ops(p.script...), Snapshot: true,
+			Keys: keys, Rollback: true, MaxSaves: 3, Depth: d, Bounds: []int{-1}, Probe: &Probe{Keys: boundsOf(keys, u23)[1:]}, Events: true, TakeOver: p.name == "inner-borrow-from-right" || p.name == "four-level-min-occupancy",
 		})
 	}
 	return out
@@ -380,10 +648,48 @@ func ScenariosC24B(thorough bool) ([]*Scenario, error) {
 			k := sc.Keys
 			sc.Keys = []int{k[0], k[len(k)/3], k[len(k)/2], k[len(k)-1]}
 		}
+		sc.Events = true
+		sc.TakeOver = sc.Name == "B32/n32-asc" || sc.Name == "B32/n33-desc" || thorough
+		out = append(out, sc)
+	}
+	// start states one removal away from an inner-level borrow (from the left, from the right) and an inner merge
+	inner, err := ScenariosBInner(thorough)
+	if err != nil {
+		return nil, err
+	}
+	for _, sc := range inner {
+		sc.Cfg = Cfg{Cache: 10000}
+		sc.Reload, sc.LoadVer, sc.Prune, sc.Imm = false, false, false, false
+		sc.Bounds = []int{-1}
+		sc.Depth = 2
+		sc.Events = true
+		sc.TakeOver = sc.Name == "B32/h1-borrow-from-right" || thorough
+		if !thorough && len(sc.Keys) == 5 {
+			// quick: the key whose removal makes the inner node underflow and the absent key in its leaf (the sorted alphabet is
+			// [neighbour's last key, first key of the target, trigger, absent, last key of the target] resp., for the leftmost
+			// target, [first key of the target, trigger, absent, last key of the target, neighbour's first key])
+			k := sc.Keys
+			if sc.Name == "B32/h1-borrow-from-right" {
+				sc.Keys = []int{k[1], k[2]}
+			} else {
+				sc.Keys = []int{k[2], k[3]}
+			}
+		}
 		out = append(out, sc)
 	}
 	return out, nil
 }
+
+// Rebalancing steps a complete C24 run must have executed (and therefore re-executed under every configuration):
+// every step at INNER level that C23 requires of its own runs (c23.go needRebalanceA/B), plus leaf split / merge / borrow.
+var (
+	needRebalanceC24A = []string{"inner_h1_split", "root_split", "inner_h1_merge", "inner_h2_merge", "root_collapse",
+		"inner_h1_borrow_from_left", "inner_h1_borrow_from_right", "inner_h2_borrow_from_left", "leaf_split", "leaf_merge", "leaf_borrow_from_left"}
+	needRebalanceC24B = []string{"inner_h1_merge", "inner_h1_borrow_from_left", "inner_h1_borrow_from_right", "leaf_split", "leaf_merge", "leaf_borrow_from_left"}
+	needStartC24      = []string{"cfg_start:" + startNames[1], "cfg_start:" + startNames[2], "after_takeover:Remove_of_present_key", "after_takeover:Remove_of_absent_key",
+		"after_takeover:Set_of_present_key", "after_takeover:Set_of_absent_key", "after_takeover_and_SaveVersion:Remove_of_present_key", "after_takeover_and_SaveVersion:Remove_of_absent_key",
+		"after_takeover_and_SaveVersion:Set_of_present_key", "after_takeover_and_SaveVersion:Set_of_absent_key"}
+)
 
 // MainC24 is the parent (B=4 build) of harness c24.
 func MainC24() {
@@ -398,7 +704,8 @@ func MainC24() {
 	if r.Thorough() {
 		aBudget, bBudget = 15*time.Minute, 10*time.Minute
 	}
-	sink := BudgetSink{Sink: VKSink{r}, Deadline: time.Now().Add(aBudget), Hit: &hit}
+	histA := newHistSink(VKSink{r})
+	sink := BudgetSink{Sink: histA, Deadline: time.Now().Add(aBudget), Hit: &hit}
 	var st C24Stats
 	t0 := time.Now()
 	rows, states, trans, _, _, ex := runScenarios(sink, ScenariosC24A(r.Thorough()), C24Hook(sink, &st, r.Thorough()))
@@ -414,13 +721,32 @@ func MainC24() {
 	if st.ConfigRuns.Load() == 0 || st.Imports.Load() == 0 {
 		r.HarnessError("vacuous: no configuration runs / imports happened")
 	}
-	r.Sample(map[string]any{"config_example": DiffCfg{5, 0, 2, 1}.String(), "configs_for_3_boundaries": len(diffConfigs(3, r.Thorough()))})
+	if ex && r.Violations() == 0 && os.Getenv("VERIF_ONLY") == "" { // complete run: every rebalancing step and every take-over must have happened
+		vacuityGuard(r, histA.hist, needRebalanceC24A...)
+		vacuityGuard(r, histA.other, needStartC24...)
+		hb, ho := map[string]int64{}, map[string]int64{}
+		if mb, ok := covB["rebalancing_steps"].(map[string]any); ok {
+			for k := range mb {
+				hb[k] = CovInt(mb, k)
+			}
+		}
+		if mb, ok := covB["start_modes"].(map[string]any); ok {
+			for k := range mb {
+				ho[k] = CovInt(mb, k)
+			}
+		}
+		vacuityGuard(r, hb, needRebalanceC24B...)
+		vacuityGuard(r, ho, needStartC24...)
+	}
+	r.Sample(map[string]any{"config_example": DiffCfg{5, 0, 2, 1, 0}.String(), "configs_for_3_boundaries": len(diffConfigs(3, r.Thorough()))})
 	r.Assumptions = []string{
 		"histories: BFS over {Set,Remove,SaveVersion,Rollback} from prefill shapes (states merged on model + implementation structure); every history reaching a NEW state is re-executed under every configuration of the set",
 		"configuration set (quick): all reopen subsets of the version boundaries x cache{0,10000} x fast index{off,on} x pruning{never,every version} + every other factor value (cache 1,2; fast toggled at each reopen; keep-2) against reopen-none/all; thorough: the full product",
 		"reopen = Close + new MutableTree on the same DB + Load; snapshot-start scenarios clone a DB built under the reference configuration (so enabling the fast index on an existing DB is exercised)",
 		"hash equality is checked after EVERY operation (WorkingHash, Hash) and for every saved version; the independent mini-merkle recomputation from contents+shape runs on every new state (both scales)",
 		"scale A = B=4/miniMerkleDepth=2 overlay build; scale B = unscaled B=32 child binary",
+		"start states include the shapes one removal away from every inner-level rebalancing step (borrow from the left / right inner sibling, inner merge, root collapse; three inner nodes; four levels; B=32: 529/785-key trees); steps are classified from the tree dumps (events.go) and a complete run must have executed every one of them (else HARNESS-ERROR)",
+		"start modes (histories of up to 3 operations in the quick tier, all in thorough): (1) start state committed with the fast index off, reopened with it ON through LoadVersion(latest)/LoadReadonly (index readable but incomplete), also at every later reopen; (2) latest version exported, imported into an empty DB, history continued on the importing handle; a complete run must have continued with Remove and Set of present and of absent keys under both",
 	}
 	r.Finish("differential model checking: every operation history (BFS, depth-bounded) x every configuration {reopen pattern, cache size, fast index, pruning schedule} must produce identical WorkingHash/Hash after every op and identical version hashes, identical contents; export->import of every new version into an empty DB must reproduce hash, contents and shape (also after reload); hashes equal an independent recomputation",
 		ex, map[string]any{
@@ -428,7 +754,8 @@ func MainC24() {
 			"traces_validated_against_impl": trans + CovInt(covB, "transitions") + st.ConfigRuns.Load() + CovInt(covB, "config_runs"),
 			"depth":  map[string]any{"scaleA": rows, "scaleB": covB["scenarios"]},
 			"scaleA": map[string]any{"B": pb.B, "states": states, "bfs_transitions": trans, "histories_differentiated": st.Histories.Load(), "config_runs": st.ConfigRuns.Load(),
-				"hash_comparisons": st.HashCompares.Load(), "export_imports": st.Imports.Load(), "wall_s": wallA},
+				"hash_comparisons": st.HashCompares.Load(), "export_imports": st.Imports.Load(), "wall_s": wallA,
+				"start_mode_runs": st.StartRuns.Load(), "rebalancing_steps": histA.hist, "start_modes": histA.other},
 			"scaleB": covB,
 		})
 }
@@ -446,8 +773,10 @@ func ChildC24(sink Sink) map[string]any {
 		return map[string]any{}
 	}
 	var st C24Stats
-	rows, states, trans, _, _, ex := runScenarios(sink, scs, C24Hook(sink, &st, sink.Thorough()))
+	hs := newHistSink(sink)
+	rows, states, trans, _, _, ex := runScenarios(hs, scs, C24Hook(hs, &st, sink.Thorough()))
 	return map[string]any{"B": pb.B, "states": states, "transitions": trans, "bfs_transitions": trans, "histories_differentiated": st.Histories.Load(),
+		"start_mode_runs": st.StartRuns.Load(), "rebalancing_steps": hs.hist, "start_modes": hs.other,
 		"config_runs": st.ConfigRuns.Load(), "hash_comparisons": st.HashCompares.Load(), "export_imports": st.Imports.Load(),
 		"exhaustive_to_depth": ex, "scenarios": rows}
 }
